@@ -175,6 +175,22 @@ def run(F, R, tier):
                 cons.setdefault(H.last(c["callee"].split("::<")[0]) if False else c["callee"].split("::")[2], []).append(p)
     R.ob("single-buffer-per-handle", "BufReader / BufWriter are constructed only in builtin_open", all(set(v) == {BF + "builtin_open"} for v in cons.values()) and len(cons) == 2,
          str({k: sorted(set(v)) for k, v in cons.items()}))
+    # no buffer bypass: data read or written on a handle goes through its BufReader / BufWriter; reaching the underlying
+    # File (`get_mut`, `into_inner`, `into_parts`; `get_ref` only reads metadata and is allowed) lets bytes overtake — or be returned again after — what the
+    # buffer still holds ("exactly once, in order")
+    BYPASS = ("get_mut", "into_inner", "into_parts")
+    byp = []
+    for p, g in sorted(F.fns.items()):
+        if not (g["file"].endswith("builtins/functions.rs") or g["file"].endswith("object/file.rs")):
+            continue
+        b = H.body_of(g)
+        if b is None:
+            continue
+        for c in H.walk(b):
+            cal = c.get("callee") or ""
+            if c.get("k") in ("call", "mcall") and (cal.startswith("std::io::BufWriter") or cal.startswith("std::io::BufReader")) and H.last(cal) in BYPASS:
+                byp.append("%s: %s" % (p, cal))
+    R.ob("no-buffer-bypass", "the builtins never reach under a handle's BufReader / BufWriter", not byp, "; ".join(byp)[:300])
     # reads use the stored reader: builtin_read / read_line / read_to_string borrow the handle's reader
     for fn in ("builtin_read", "builtin_read_line", "builtin_read_to_string"):
         g = F.fn(BF + fn)
